@@ -23,6 +23,54 @@ def drop_prefixes(cases):
     return [c for k, c in keyed if k not in prefixes]
 
 
+def engine_b(v, tier, seed):
+    """random long call histories recorded from the real document, validated against spec/StoreTrace.tla"""
+    import subprocess
+    from lib import tracev
+    q = tier == "quick"
+    wd = vlib.workdir(PID, "trace")
+    runs, ncalls = (40, 40) if q else (150, 80)
+    plan = [("nomerge", "StoreTrace_ideal.cfg")] * (3 if q else 9) + [("free", "StoreTrace_asbuilt.cfg")] * (2 if q else 6)
+    stats = {"batches": len(plan), "runs": 0, "calls": 0, "saves_ok": 0, "saves_err": 0, "merge_situations": 0}
+
+    def one(b):
+        mode, cfg = plan[b]
+        tp, rp = os.path.join(wd, "trace_%d.ndjson" % b), os.path.join(wd, "report_%d.json" % b)
+        p = subprocess.run([vlib.BIN, "storetrace", tp, rp, "--seed", str(seed * 1000 + b), "--runs", str(runs), "--calls", str(ncalls), "--maxnew", "6", "--mode", mode],
+                           stdout=subprocess.PIPE, stderr=subprocess.PIPE, text=True, timeout=1800)
+        if p.returncode != 0:
+            return b, tp, None, (False, "recorder died (exit %s): %s" % (p.returncode, p.stderr[-600:]), "recorder-died")
+        return b, tp, json.load(open(rp)), tracev.validate(PID, "StoreTrace", cfg, tp, str(b))
+    with cf.ThreadPoolExecutor(max_workers=5) as ex:
+        res = list(ex.map(one, range(len(plan))))
+    for b, tp, rep, (ok, detail, kind) in res:
+        if rep:
+            for k in ("runs", "calls", "saves_ok", "saves_err", "merge_situations"):
+                stats[k] += rep[k]
+        if not ok:
+            cls = "trace:%s:%s" % (plan[b][0], kind)
+            v.failure(cls, {"class": cls, "trace": tp, "cfg": plan[b][1], "mode": plan[b][0], "detail": detail, "seed": seed * 1000 + b})
+    if stats["saves_ok"] == 0 or stats["merge_situations"] == 0:
+        raise vlib.ToolError("trace validation is vacuous: %s" % stats)
+    # binding self-test: one corrupted observation must be rejected
+    b0 = res[0]
+    if b0[3][0]:
+        lines = open(b0[1]).read().splitlines()
+        idx = next(i for i, ln in enumerate(lines) if '"ev":"update"' in ln and i > 20)
+        d = json.loads(lines[idx]); d["obs"][0] = ["Q"]; lines[idx] = json.dumps(d)
+        cp = os.path.join(wd, "corrupted.ndjson")
+        open(cp, "w").write("\n".join(lines) + "\n")
+        if tracev.validate(PID, "StoreTrace", plan[0][1], cp, "corrupt")[0]:
+            raise vlib.ToolError("binding self-test failed: a trace with a corrupted observation was accepted")
+        stats["corrupted_trace_rejected"] = True
+    stats["rule"] = ("Engine B: a seeded random driver issues %d runs x %d calls (create / update / promise / fulfil / get / save; values {A}, {B}, {A,B}, integer, an unserialisable stream; "
+                     "junk prefix 0/7, both base layouts, cached File / uncached Storage) on the real document and records after every call what every reference resolves to, the typed value of "
+                     "every get, and after every successful save what a reload of the written bytes resolves to; TLC accepts a trace iff every line is the Store.tla action with these arguments and "
+                     "the observations equal the model's; traces of the driver that never writes a dictionary over a different pending one are validated against the intended design with "
+                     "ReadYourWrites, SameRef, ReloadExact, Retry as invariants, free traces against the as-built model (recorded merge finding)" % (runs, ncalls))
+    return stats
+
+
 def run(tier, seed):
     t0 = time.time()
     v = vlib.Verdict(PID)
@@ -61,8 +109,10 @@ def run(tier, seed):
     vlib.write_cases(cases, cpath)
     rep = vlib.run_harness("store", cpath, os.path.join(wd, "report.json"), [] if q else ["--both-layouts"])
     v.from_report(rep)
+    tstats = engine_b(v, tier, seed)
     rc = v.finish()
     vlib.write_evidence(PID, tier, seed, "model_checking", {
+        "trace_validation": tstats,
         "states": mc["distinct"] + gen["distinct"], "transitions": mc["generated"] + gen["generated"],
         "traces_validated_against_impl": rep["cases"],
         "samples": rep["samples"][:2],
@@ -85,6 +135,20 @@ def run(tier, seed):
 
 def replay(path, seed):
     rec = json.load(open(path))
+    if rec.get("trace"):
+        # the driver is deterministic for a seed: record the same trace again from the current tree and validate it
+        import subprocess
+        from lib import tracev
+        v = vlib.Verdict(PID)
+        wd = vlib.workdir(PID, "replay_trace")
+        vlib.build_harness()
+        tp = os.path.join(wd, "trace.ndjson")
+        subprocess.run([vlib.BIN, "storetrace", tp, os.path.join(wd, "report.json"), "--seed", str(rec["seed"]), "--runs", "150", "--calls", "80", "--maxnew", "6", "--mode", rec["mode"]], check=True)
+        ok, detail, kind = tracev.validate(PID, "StoreTrace", rec["cfg"], tp, "replay")
+        vlib.log("trace %s: %s" % (tp, "accepted" if ok else detail))
+        if not ok:
+            v.failure(rec["class"], rec)
+        return v.finish()
     if "case" not in rec:
         vlib.log(open(path).read()[:4000])
         return 1
